@@ -91,9 +91,12 @@ type Universe interface {
 	Inside(x Inst) bool  // states outside are recorded as targets but not expanded
 }
 
-func canon(x Inst) string { return deepString(x.Target(), x.Mask()) }
+var lastPanicked bool
 
-func fullFP(x Inst) string { return fpOf(deepString(x.Target(), nil)) }
+// state identity: spare capacity counts (growth thresholds), stale slots beyond len do not
+func canon(x Inst) string { return deepString(x.Target(), x.Mask(), false, x.Fam() == "map" || x.Fam() == "set") }
+
+func fullFP(x Inst) string { return fpOf(deepString(x.Target(), nil, true, false)) }
 
 func safeObserve(x Inst) (o Ev, bad bool) {
 	ci := invoke(Ev{"op": "Observe", "kind": x.Kind()}, func() { o = x.Observe() })
@@ -105,10 +108,10 @@ func safeObserve(x Inst) (o Ev, bad bool) {
 
 // step performs one logged call.  pre is the observation before the call when the event starts a
 // new trace segment (rs = reset), else nil: the trace specification then continues from its own state.
-func step(x Inst, c Call, rs bool, pre Ev, extra Ev) (post Ev) {
+func step(x Inst, c Call, rs int, pre Ev, extra Ev) (post Ev) {
 	e := Ev{"fam": x.Fam(), "kind": x.Kind(), "cfg": x.Cfg(), "op": c.Op, "a": c.A(), "rs": rs,
 		"timeout": false}
-	if rs {
+	if rs == 1 {
 		e["pre"] = pre
 	} else {
 		e["pre"] = 0
@@ -122,6 +125,7 @@ func step(x Inst, c Call, rs bool, pre Ev, extra Ev) (post Ev) {
 	}
 	e["r"] = r
 	e["panic"] = ci.Panic
+	lastPanicked = ci.Panic
 	e["pmsg"] = ci.PMsg
 	e["out"] = ci.Out
 	e["cmps"] = ci.Cmps
@@ -154,17 +158,24 @@ func tour(u Universe, maxStates int) (states, edges int) {
 		// enumerate the calls applicable in this state
 		x = replay(u, n.path)
 		calls := u.Calls(x)
+		first := true
 		for _, c := range calls {
 			x = replay(u, n.path)
 			pre, bad := safeObserve(x)
 			if bad {
 				// the source state itself cannot be observed: log it on its own
-				emit(Ev{"fam": x.Fam(), "kind": x.Kind(), "cfg": x.Cfg(), "op": "Sync", "a": Call{}.A(), "rs": true,
+				emit(Ev{"fam": x.Fam(), "kind": x.Kind(), "cfg": x.Cfg(), "op": "Sync", "a": Call{}.A(), "rs": 1,
 					"pre": 0, "post": pre, "r": []any{}, "panic": true, "pmsg": "observe", "out": 0, "cmps": 0,
 					"timeout": false, "mut": false, "obsbad": true, "fp": []string{"", "", ""}})
 				continue
 			}
-			step(x, c, true, pre, nil)
+			// rs = 1: new segment carrying the source observation; rs = 2: same source state as before
+			if first {
+				step(x, c, 1, pre, nil)
+				first = false
+			} else {
+				step(x, c, 2, nil, nil)
+			}
 			edges++
 			noteDistinct(x.Kind(), c)
 			k := canon(x)
@@ -209,11 +220,18 @@ func randomRun(u RandomUniverse, r *rand.Rand, traces, steps int) {
 		rs := true
 		for s := 0; s < steps; s++ {
 			c := u.Rand(x, r)
+			var post Ev
 			if rs {
-				step(x, c, true, pre, nil)
+				post = step(x, c, 1, pre, nil)
 				rs = false
 			} else {
-				step(x, c, false, nil, nil)
+				post = step(x, c, 0, nil, nil)
+			}
+			if _, bad := post["obspanic"]; bad || lastPanicked {
+				// a call that did not complete may leave anything behind: start a new segment
+				x = u.New()
+				pre, _ = safeObserve(x)
+				rs = true
 			}
 			noteDistinct(x.Kind(), Call{Op: c.Op, I: sign3(c.I), Cmp: c.Cmp})
 		}
